@@ -8,7 +8,7 @@ try:
     HIST = json.load(open(os.path.join(ROOT, 'seeded', 'HISTORY.json')))
 except OSError:
     HIST = {}
-for d in sorted(glob.glob(os.path.join(ROOT, 'seeded', 'C*', '[mn]*'))):
+for d in sorted(glob.glob(os.path.join(ROOT, 'seeded', 'C*', '[mnp]*'))):
     try:
         meta = json.load(open(os.path.join(d, 'meta.json')))
     except Exception:
